@@ -83,6 +83,24 @@ func NewExec(w *World, fn *ssa.Function, spec *FuncSpec) *Exec {
 		loops: map[*ssa.Function]*loopInfo{}, iterSites: map[*ssa.Function]int{}, exitBound: map[string]bool{}, iterSeen: map[int]bool{}, backing: map[string]*backingInfo{}}
 }
 
+// frameTags: the properties that own the frame obligations of the function being verified. A function that declares
+// `frame [tags]` names them; any other function with an `assigns` clause is held to it under every property it is
+// tagged with, because its callers rely on that clause (modular reasoning) whatever property they are checked for.
+func (x *Exec) frameTags() []string {
+	if len(x.spec.Frame) > 0 {
+		return x.spec.Frame
+	}
+	if x.spec.HasAssigns {
+		return x.ownerTags
+	}
+	return nil
+}
+
+func isMapUpdate(in ssa.Instruction) bool {
+	_, ok := in.(*ssa.MapUpdate)
+	return ok
+}
+
 // reqActive: a requires clause without tags is a precondition for every property; a tagged one restricts the inputs
 // only while one of its properties is being checked (e.g. "a certificate store is configured" for the no-panic
 // property C09, but not for C01, where acceptance without a store must be shown impossible rather than assumed away).
@@ -868,7 +886,17 @@ func (x *Exec) pointeeGuardCheck(s *State, fr *Frame, ref *Term, t types.Type, p
 // location listed in the contract's assigns clause.
 func (x *Exec) frameCheck(s *State, fr *Frame, ref *Term, t types.Type, pos token.Pos, in ssa.Instruction) {
 	x.pointeeGuardCheck(s, fr, ref, t, pos, in)
-	if len(x.spec.Frame) == 0 {
+	// A function that declares `frame [tags]` is held to its assigns clause everywhere (own stores, assigns of its
+	// callees, uncontracted calls). Any other function with an assigns clause is held to it at least for the stores
+	// its own body (and the helpers inlined into it) performs, under every property it is tagged with: its callers
+	// rely on that clause.
+	ftags := x.spec.Frame
+	if len(ftags) == 0 {
+		if _, isStore := in.(*ssa.Store); isStore || isMapUpdate(in) {
+			ftags = x.frameTags()
+		}
+	}
+	if len(ftags) == 0 {
 		return
 	}
 	fresh := Gt(ref, Var("alloc0", SInt))
@@ -879,6 +907,14 @@ func (x *Exec) frameCheck(s *State, fr *Frame, ref *Term, t types.Type, pos toke
 				goal = TTrue
 				break
 			}
+			if a.Owner != nil {
+				// `assigns all T.f`: any object of that type (per type, not per field)
+				if ot, err := x.w.ResolveType(funcHome[x.spec], a.Owner); err == nil && x.w.heapKey(ot) == x.w.heapKey(t) {
+					goal = TTrue
+					break
+				}
+				continue
+			}
 			lv := x.evalLoc(&EvalCtx{x: x, st: s, old: x.entry, env: x.specEnv(nil), sf: funcHome[x.spec]}, a.Expr)
 			if lv != nil && lv.Ref != nil && x.w.heapKey(lv.RootT) == x.w.heapKey(t) {
 				goal = Or(goal, Eq(ref, lv.Ref))
@@ -886,7 +922,7 @@ func (x *Exec) frameCheck(s *State, fr *Frame, ref *Term, t types.Type, pos toke
 		}
 	}
 	name := fmt.Sprintf("frame@%s#%s", shortFn(fnKey(fr.fn)), x.siteOrdinal(fr.fn, in))
-	x.oblige(s, "frame", name, goal, x.spec.Frame, posOfInstr(in, pos), "store targets a fresh object or an assigns location")
+	x.oblige(s, "frame", name, goal, ftags, posOfInstr(in, pos), "store targets a fresh object or an assigns location")
 }
 
 func (x *Exec) doUnOp(s *State, fr *Frame, i *ssa.UnOp) {
